@@ -157,3 +157,18 @@ func (c *Ctx) ReplayInputs(suite string) []json.RawMessage {
 	}
 	return out
 }
+
+// CorpusInputs returns the minimised-failure corpus entries of one suite for this property
+// (/verif/corpus/<prop>.json: {"<suite>": [input, ...]}); they run before the generated cases.
+func (c *Ctx) CorpusInputs(suite string) []json.RawMessage {
+	b, err := os.ReadFile("/verif/corpus/" + c.R.Property + ".json")
+	if err != nil {
+		return nil
+	}
+	var doc map[string][]json.RawMessage
+	if json.Unmarshal(b, &doc) != nil {
+		c.R.Note("corpus file for %s is not valid JSON", c.R.Property)
+		return nil
+	}
+	return doc[suite]
+}
